@@ -152,19 +152,29 @@ def _check(ld, prog, m, B, node, lib_log, ref_log, case, lo, res):
     # drain of the pipeline below the last buffering stage.
     drained = {}
     if B.lookahead and m.finite:
-        j = max(i for i, op in enumerate(prog['ops'])
-                if op[0] in ('prefetch1', 'parmap', 'prefetcht')
-                or (op[0] in ('concat', 'intersperse', 'zip', 'key_zip')
-                    and isinstance(op[1], dict)))
+        BUF = ('prefetch1', 'parmap', 'prefetcht')
         dl = []
-        try:
-            sub = lazyref.Build(LogFns(dl)).run({'src': prog['src'],
-                                                 'ops': prog['ops'][:j + 1]})
-            del dl[:]
-            for _ in sub.it():
-                pass
-        except BaseException:
-            pass
+
+        def drain(p, stage_prefix):
+            # everything below the last buffering stage of this (sub-)program,
+            # and, recursively, of every operand program
+            js = [i for i, op in enumerate(p['ops']) if op[0] in BUF]
+            if js:
+                mark = len(dl)
+                try:
+                    sub = lazyref.Build(LogFns(dl)).run(
+                        {'src': p['src'], 'ops': p['ops'][:js[-1] + 1]},
+                        stage_prefix=stage_prefix)
+                    del dl[mark:]
+                    for _ in sub.it():
+                        pass
+                except BaseException:
+                    pass
+            for i, op in enumerate(p['ops']):
+                if op[0] in ('concat', 'intersperse', 'zip', 'key_zip') \
+                        and isinstance(op[1], dict):
+                    drain(op[1], f'{stage_prefix}{i}o')
+        drain(prog, 's')
         mult = max(1, B.lookahead)      # generous: concurrent iterators
         for st, ids in per_stage(dl).items():
             drained[st] = ids * mult
